@@ -8,6 +8,7 @@ package main
 // schema at exactly the occurrences of the type, latest registration wins).
 
 import (
+	"encoding/hex"
 	"fmt"
 	"reflect"
 	"strings"
@@ -26,7 +27,20 @@ type CPlain string // never registered
 // CPoint is a struct whose registered schema is a record (the shape a pointer fast path would take for built-in structs)
 type CPoint struct{ X, Y int64 }
 
+// COpt is an optional value in the style of null.Int: its registered schema is a nullable union and its codec
+// decides by itself (Omit) whether a value is written as null -- in every position, omitempty or not
+type COpt struct {
+	V     int64
+	Valid bool
+}
+
+// CObjID is deliberately NOT a declared type: registrations are keyed by reflect.Type, and an unnamed type is
+// a type like any other ([12]byte is used nowhere else in the harness)
+type cObjID = [12]byte
+
 var customNames = map[reflect.Type]string{
+	reflect.TypeOf(cObjID{}):   "CObjID",
+	reflect.TypeOf(COpt{}):     "COpt",
 	reflect.TypeOf(CEmail("")): "CEmail",
 	reflect.TypeOf(CCelsius{}): "CCelsius",
 	reflect.TypeOf(CTags(nil)): "CTags",
@@ -62,6 +76,16 @@ func (c logCodec) Read(r *avro.ReadBuf, p unsafe.Pointer) error {
 		}
 		*(*CEmail)(p) = CEmail(strings.Clone(s[1:]))
 		return nil
+	case "CObjID":
+		var s string
+		if err := c.Codec.Read(r, unsafe.Pointer(&s)); err != nil {
+			return err
+		}
+		if len(s) != 25 || s[0] != c.mark {
+			return fmt.Errorf("custom object id without its marker")
+		}
+		_, err := hex.Decode((*cObjID)(p)[:], []byte(s[1:]))
+		return err
 	case "CTags":
 		var s string
 		if err := c.Codec.Read(r, unsafe.Pointer(&s)); err != nil {
@@ -76,6 +100,11 @@ func (c logCodec) Read(r *avro.ReadBuf, p unsafe.Pointer) error {
 		}
 		*(*CTags)(p) = strings.Split(strings.Clone(s[1:]), ",")
 		return nil
+	}
+	if c.name == "COpt" {
+		o := (*COpt)(p)
+		o.Valid = true
+		return c.Codec.Read(r, unsafe.Pointer(&o.V))
 	}
 	if c.name == "CPoint" {
 		pt := (*CPoint)(p)
@@ -98,6 +127,14 @@ func (c logCodec) Write(w *avro.WriteBuf, p unsafe.Pointer) {
 		s := string(c.mark) + strings.Join(*(*CTags)(p), ",")
 		c.Codec.Write(w, unsafe.Pointer(&s))
 		return
+	case "CObjID":
+		s := string(c.mark) + hex.EncodeToString((*cObjID)(p)[:])
+		c.Codec.Write(w, unsafe.Pointer(&s))
+		return
+	}
+	if c.name == "COpt" {
+		c.Codec.Write(w, unsafe.Pointer(&(*COpt)(p).V))
+		return
 	}
 	if c.name == "CPoint" {
 		pt := (*CPoint)(p)
@@ -113,7 +150,12 @@ func (c logCodec) Skip(r *avro.ReadBuf) error {
 	return c.Codec.Skip(r)
 }
 
-func (c logCodec) Omit(p unsafe.Pointer) bool { return false }
+func (c logCodec) Omit(p unsafe.Pointer) bool {
+	if c.name == "COpt" {
+		return !(*COpt)(p).Valid
+	}
+	return false
+}
 
 func (c logCodec) New(r *avro.ReadBuf) unsafe.Pointer {
 	switch c.name {
@@ -123,6 +165,10 @@ func (c logCodec) New(r *avro.ReadBuf) unsafe.Pointer {
 		return r.Alloc(reflect.TypeOf(CTags(nil)))
 	case "CPoint":
 		return r.Alloc(reflect.TypeOf(CPoint{}))
+	case "CObjID":
+		return r.Alloc(reflect.TypeOf(cObjID{}))
+	case "COpt":
+		return r.Alloc(reflect.TypeOf(COpt{}))
 	}
 	return r.Alloc(reflect.TypeOf(CCelsius{}))
 }
@@ -135,7 +181,7 @@ func mkBuilder(id int, name string) avro.CodecBuildFunc {
 		if name == "CCelsius" {
 			return logCodec{Codec: avro.DoubleCodec{}, id: id, name: name}, nil
 		}
-		if name == "CPoint" {
+		if name == "CPoint" || name == "COpt" {
 			return logCodec{Codec: avro.Int64Codec{}, id: id, name: name}, nil
 		}
 		return logCodec{Codec: avro.StringCodec{}, id: id, name: name, mark: byte('A' + id%26)}, nil
@@ -208,6 +254,27 @@ type HPoint struct {
 		PP *CPoint `json:"pp"`
 	} `json:"n"`
 }
+type HObjID struct {
+	F cObjID            `json:"f"`
+	P *cObjID           `json:"p"`
+	L []cObjID          `json:"l"`
+	M map[string]cObjID `json:"m"`
+	N struct {
+		X cObjID `json:"x"`
+	} `json:"n"`
+	B []byte `json:"b"`
+}
+type HOpt struct {
+	F COpt            `json:"f"`
+	P *COpt           `json:"p"`
+	L []COpt          `json:"l"`
+	M map[string]COpt `json:"m"`
+	O COpt            `json:"o,omitempty"`
+	N struct {
+		X COpt `json:"x"`
+	} `json:"n"`
+	Z int64 `json:"z"`
+}
 type HNone struct {
 	A CPlain   `json:"a"`
 	B []CPlain `json:"b"`
@@ -230,7 +297,15 @@ func holderValues(c *driverCtx) []reflect.Value {
 	pp := CPoint{7, -8}
 	hp := HPoint{F: CPoint{1, 2}, P: &pp, L: []CPoint{{3, 4}}, M: map[string]CPoint{"k": {5, 6}}, LP: []*CPoint{&pp, nil}}
 	hp.N.PP = &pp
-	vals := []any{he, he2, hc, hc2, ht, hn, hp, HPoint{}}
+	id1, id2 := cObjID{1, 2, 3, 4, 5, 6, 7, 8, 9, 10, 11, 12}, cObjID{0xff, 0xee}
+	ho := HObjID{F: id1, P: &id2, L: []cObjID{id2, id1, {}}, M: map[string]cObjID{"a": id1}, B: []byte{9, 8, 7, 6}}
+	ho.N.X = id2
+	ov := func(v int64) COpt { return COpt{v, true} }
+	po := ov(-7)
+	hop := HOpt{F: ov(5), P: &po, L: []COpt{ov(1), {}, ov(0), {}}, M: map[string]COpt{"a": ov(2), "b": {}}, O: ov(3), Z: 9}
+	hop.N.X = ov(0)
+	hop2 := HOpt{L: []COpt{{}}, M: map[string]COpt{"n": {}}, Z: -1} // every occurrence invalid: null everywhere
+	vals := []any{he, he2, hc, hc2, ht, hn, hp, HPoint{}, ho, HObjID{}, hop, hop2}
 	out := make([]reflect.Value, len(vals))
 	for i, v := range vals {
 		p := reflect.New(reflect.TypeOf(v))
@@ -243,6 +318,12 @@ func holderValues(c *driverCtx) []reflect.Value {
 func useAll(c *driverCtx, rs *regState, step string) {
 	for _, v := range holderValues(c) {
 		t := v.Type()
+		if _, reg := rs.builder["COpt"]; !reg && t == reflect.TypeOf(HOpt{}) {
+			continue // unregistered, the type is an ordinary struct {V, Valid}: nothing optional about it
+		}
+		if _, reg := rs.builder["CObjID"]; !reg && t == reflect.TypeOf(HObjID{}) {
+			continue // an unregistered byte array gets a "bytes" schema for which no codec can be built: nothing to use yet
+		}
 		ev := map[string]any{"op": "reg_use", "step": step, "regs": rs.nodes(), "latest": rs.latest(), "type": projectType(t), "typeName": t.Name(),
 			"value": projectValue(v), "outcome": "ok", "schema": snode("null", "", "", 0, nil, nil), "log": []any{}, "rvalue": projectValue(reflect.New(t).Elem()), "detail": ""}
 		func() {
@@ -286,7 +367,7 @@ func useAll(c *driverCtx, rs *regState, step string) {
 
 func driveC20(c *driverCtx) error {
 	rs := &regState{builder: map[string]int{}, schema: map[string]string{}}
-	types := map[string]reflect.Type{"CEmail": reflect.TypeOf(CEmail("")), "CCelsius": reflect.TypeOf(CCelsius{}), "CTags": reflect.TypeOf(CTags(nil)), "CPoint": reflect.TypeOf(CPoint{})}
+	types := map[string]reflect.Type{"CEmail": reflect.TypeOf(CEmail("")), "CCelsius": reflect.TypeOf(CCelsius{}), "CTags": reflect.TypeOf(CTags(nil)), "CPoint": reflect.TypeOf(CPoint{}), "CObjID": reflect.TypeOf(cObjID{}), "COpt": reflect.TypeOf(COpt{})}
 	nextID := 1
 	register := func(name string) {
 		avro.Register(types[name], mkBuilder(nextID, name))
@@ -315,6 +396,10 @@ func driveC20(c *driverCtx) error {
 	registerSchema("CTags", `"string"`)
 	register("CPoint")
 	registerSchema("CPoint", `{"type":"record","name":"CPoint","fields":[{"name":"X","type":"long"},{"name":"Y","type":"long"}]}`)
+	register("CObjID")
+	registerSchema("CObjID", `"string"`)
+	register("COpt")
+	registerSchema("COpt", `["null","long"]`)
 	useAll(c, rs, "1-registered")
 	// step 2: re-register codecs (the most recent builder wins)
 	register("CEmail")
@@ -325,9 +410,9 @@ func driveC20(c *driverCtx) error {
 	register("CTags")
 	useAll(c, rs, "3-reregistered-schema")
 	// step 4: interleaved further registrations in a seeded order
-	names := []string{"CEmail", "CCelsius", "CTags", "CPoint"}
+	names := []string{"CEmail", "CCelsius", "CTags", "CPoint", "CObjID", "COpt"}
 	for k := 0; k < c.pick(3, 80); k++ {
-		n := names[c.rng.Intn(4)]
+		n := names[c.rng.Intn(len(names))]
 		register(n)
 		if c.rng.Intn(2) == 0 && n == "CCelsius" {
 			registerSchema(n, []string{`"double"`, `["null","double"]`}[c.rng.Intn(2)])
